@@ -39,6 +39,13 @@ def _case(draw):
     signed = draw(st.integers(0, 3)) == 0
     nv = draw(st.integers(2, 5))
     vecs = [draw(_vec(dim, signed)) for _ in range(nv)]
+    tiny_neg = (not signed) and draw(st.integers(0, 5)) == 0
+    if tiny_neg:
+        # round-off noise just below zero (e.g. the output of an upstream subtraction): outside the domain of the sqrt/log metrics,
+        # so only the "caller data unchanged" and "same arguments, same bits" clauses apply to those evaluations
+        for v in vecs:
+            j = draw(st.integers(0, dim - 1))
+            v[j] = draw(st.sampled_from([-3e-17, -1e-13, -5e-324]))
     n = draw(st.integers(3, 7))
     X = [draw(_vec(dim, False)) for _ in range(n)]
     Y = draw(gen.labels(n, 2, 3))
@@ -67,31 +74,35 @@ def _case(draw):
     # a fit of the same kind of model on OTHER (more spread-out) data in between: later fits on the pooled data must not depend on it
     fit_other = st.tuples(st.just("fit_other"), st.sampled_from(fk), st.sampled_from(fm), st.sampled_from([3.0, 10.0, 0.25])).map(list)
     ops = draw(st.lists(st.one_of(ev, ev, ev2, ev2, fit, fit, other, rewrite, fit_other), min_size=2, max_size=14))
+    if draw(st.booleans()):
+        # a compact history: fit, fit the same kind of model on other data, fit again on the pooled data
+        k_, m_ = draw(st.sampled_from(fk)), draw(st.sampled_from(fm))
+        ops = ops + [["fit", k_, m_], ["fit_other", k_, m_, draw(st.sampled_from([3.0, 10.0, 0.25]))], ["fit", k_, m_]]
     if draw(st.booleans()) and ops:
         # replay an earlier evaluation at the end: same key after whatever happened in between
         evs = [o for o in ops if o[0] == "eval"]
         if evs:
             ops = ops + [list(evs[0])]
-    return {"vecs": vecs, "X": X, "Y": Y, "Xv": Xv, "Yv": Yv, "Q": Q, "ops": ops, "signed": signed}
+    return {"vecs": vecs, "X": X, "Y": Y, "Xv": Xv, "Yv": Yv, "Q": Q, "ops": ops, "signed": signed, "tiny_neg": tiny_neg, "layout": draw(st.sampled_from(["C", "C", "C", "F"]))}
 
 
 def strategy(tier):
     return _case()
 
 
-def _fit(kind, metric, A):
+def _fit(kind, metric, A, obj=None):
     cls = models.classes()[kind]
     if kind == "knn":
-        m = libcall(cls, max_k=2, distance=metric)
+        m = obj or libcall(cls, max_k=2, distance=metric)
         libcall(m.fit, A["X"], A["Y"], A["Xv"], A["Yv"])
     elif kind == "unsup":
-        m = libcall(cls, min_k=1, max_k=2, distance=metric)
+        m = obj or libcall(cls, min_k=1, max_k=2, distance=metric)
         libcall(m.fit, A["X"], A["Y"])
     elif kind == "semi":
-        m = libcall(cls, distance=metric)
+        m = obj or libcall(cls, distance=metric)
         libcall(m.fit, A["X"], A["Y"], A["Xv"])
     else:
-        m = libcall(cls, distance=metric)
+        m = obj or libcall(cls, distance=metric)
         libcall(m.fit, A["X"], A["Y"])
     return m
 
@@ -117,6 +128,10 @@ def check_case(case):
         "Xv": np.array(case["Xv"], dtype=float), "Yv": np.array(case["Yv"], dtype=int),
         "Q": np.array(case["Q"], dtype=float),
     }
+    if case.get("layout") == "F":
+        # column-major matrices: every row handed to the library is a strided (non-contiguous) view of the caller's data
+        for k_ in ("X", "Xv", "Q"):
+            A[k_] = np.asfortranarray(A[k_])
     for i, v in enumerate(case["vecs"]):
         A["v%d" % i] = np.array(v, dtype=float)
     pristine = {k: (a.tobytes(), a.dtype, a.shape) for k, a in A.items()}
@@ -129,6 +144,7 @@ def check_case(case):
 
     memo = {}
     fit_memo = {}
+    objs = {}
     other_fits = 0
     model = None
     evals_on_zero = {}
@@ -151,7 +167,8 @@ def check_case(case):
                 val = np.float64(libcall(dist.DISTANCES[name], x, y))
                 # the value depends on the argument VALUES only: it must be the closed form of the CURRENT contents (the reference is
                 # computed without calling the library, so the check does not disturb the history it observes)
-                okc, msg = M.compare(name, val, case["vecs"][i], case["vecs"][j], shifted_inputs=True)
+                in_domain = M.c08_domain(name) in ("R",) or (min(case["vecs"][i]) >= 0 and min(case["vecs"][j]) >= 0)
+                okc, msg = M.compare(name, val, case["vecs"][i], case["vecs"][j], shifted_inputs=True) if in_domain else (True, "")
                 require(okc, "value_depends_on_argument_values_only", lambda: "%s(v%d, v%d) on the caller's (re-used) arrays: %s (history %r)" % (name, i, j, msg, case["ops"][: oi + 1]))
                 key = (name, x.tobytes(), y.tobytes())
                 bits = val.tobytes()
@@ -168,7 +185,14 @@ def check_case(case):
                         if c >= 2 or (a in (i, j) or b in (i, j)) and (n2, a, b) != (name, i, j):
                             nontriv = True
             elif op[0] == "fit":
-                model = _fit(op[1], op[2], A)
+                prev_obj = objs.get((op[1], op[2]))
+                if prev_obj is not None and oi % 2 == 1:
+                    # RE-FIT the very same model object (state kept on the object must not leak into the new fit)
+                    model = _fit(op[1], op[2], A, obj=prev_obj)
+                    kinds.add("refit_same_object")
+                else:
+                    model = _fit(op[1], op[2], A)
+                objs[(op[1], op[2])] = model
                 touched_between |= seen_keys
                 st_ = models.node_state(model)
                 st_.pop("relevant")
@@ -214,5 +238,5 @@ def check_case(case):
                 require(p1 == p2, "fit_twice_identical", "predictions differ: %r vs %r" % (p1, p2))
                 touched_between |= seen_keys
             unchanged("operation %d %r" % (oi, op))
-    cl = ["op_" + k for k in sorted(kinds)] + ["signed" if case["signed"] else "nonneg_with_zeros"]
+    cl = ["op_" + k for k in sorted(kinds)] + ["signed" if case["signed"] else "nonneg_with_zeros", "layout_" + case.get("layout", "C")]
     return Outcome.ok(nontrivial=nontriv, classes=cl)
